@@ -787,7 +787,7 @@ def render(prog, annotate=True):
     out = [TINY_HEADER if prog.get("profile") == "tinyfo" else HEADER]
     for t in prog["types"]:
         if t["k"] == "record":
-            out.append("type %s = {%s}\n" % (t["name"], "; ".join("%s: %s" % (f, rtype(ft)) for f, ft in zip(t["fields"], t["ftypes"]))))
+            out.append("type %s%s = {%s}\n" % (t["name"], ("<" + ", ".join(t["tparams"]) + ">") if t.get("tparams") else "", "; ".join("%s: %s" % (f, rtype(ft)) for f, ft in zip(t["fields"], t["ftypes"]))))
         else:
             out.append("type %s%s =\n%s\n" % (t["name"], ("<" + ", ".join(t["tparams"]) + ">") if t.get("tparams") else "", "\n".join("| %s%s" % (c["n"], (" of " + rtype(pt)) if pt is not None else "") for c, pt in zip(t["cases"], t["ptypes"]))))
     # keep every import used whatever the program does
@@ -867,6 +867,15 @@ def kernels(start_id):
         add([r], [], {"stmts": [{"k": "let", "x": "r", "e": {"k": "rec", "name": rn, "fields": fields}}],
                       "fin": {"k": "bin", "op": "+", "a": {"k": "field", "e": {"k": "var", "x": "r"}, "n": "A"},
                               "b": {"k": "bin", "op": "+", "a": {"k": "field", "e": {"k": "var", "x": "r"}, "n": "b"}, "b": {"k": "field", "e": {"k": "var", "x": "r"}, "n": "b"}}}})
+    # ... the same with a generic record (type arguments determined by the initialisers), and its field read back through a
+    # generic function of the program
+    for perm in itertools.permutations(["A", "b", "C"]):
+        rn = "P%dGRec" % pid[0]
+        r = {"k": "record", "name": rn, "tparams": ["T"], "fields": ["A", "b", "C"], "ftypes": [("raw", "T"), INT, ("raw", "T")]}
+        fields = [{"n": f, "e": _pi(T(i), i)} for i, f in enumerate(perm)]
+        add([r], [], {"stmts": [{"k": "let", "x": "r", "e": {"k": "rec", "name": rn, "fields": fields}}],
+                      "fin": {"k": "bin", "op": "+", "a": {"k": "field", "e": {"k": "var", "x": "r"}, "n": "A"},
+                              "b": {"k": "bin", "op": "+", "a": {"k": "field", "e": {"k": "var", "x": "r"}, "n": "b"}, "b": {"k": "field", "e": {"k": "var", "x": "r"}, "n": "C"}}}})
     for op in ["+", "-", "*", "<", ">", "<=", ">=", "=", "<>"]:
         add([], [], {"stmts": [], "fin": {"k": "bin", "op": op, "a": _pi(T(1), 3), "b": _pi(T(2), 4)}}, BOOL if op in ("<", ">", "<=", ">=", "=", "<>") else INT)
     add([], [], {"stmts": [], "fin": {"k": "tuple", "es": [_pi(T(1), 1), _pi(T(2), 2), _pb(T(3), True)]}}, ("tup", (INT, INT, BOOL)))
